@@ -1386,6 +1386,9 @@ def check_C05(A, R, tier):
         R.ob("R5.3", "done handler | %s | every direct downstream may be reconsidered" % A.sname(s), okl, detail=why,
              site=A.site(em[0]) if em else "")
     R.floor("R5.3", "finished states handled by the done handler", n, 10)
+    # R5.7 wake-up of parked upstream Ephemerals when a job is finished without having run
+    rule_wake_parked_upstreams(A, R, "R5.7")
+    rule_flag_change_wakes_upstreams(A, R, "R5.8")
     # R5.4 signals emitted while handling are not lost: the local signal list is moved into the queue
     sp = A.signal_processor()
     run = H[(K["done"], sorted(C["Finished"])[0])]
@@ -1685,15 +1688,14 @@ def downstream_pass_summary(A, body):
     return frozenset(passing)
 
 
-def rule_skip_decision(A, R, rule):
+def delayed_states(A):
+    """pending states of the cleanup kind (Ephemeral) that are entered only under the 'all upstreams finished' gate: the job is
+    parked until it is known whether a downstream needs it"""
+    if "_delayed" in A.__dict__:
+        return A.__dict__["_delayed"]
     C = A.classes()
-    K = kinds(A)
-    H = A.handler_runs()
     T = A.transitions()
-    from rules_compare import skip_kind
-    sk = skip_kind(A)
     cleanup_kinds = set(A.kind_of(s) for s in C["CleanupOffered"])
-    # delayed states: pending states of a cleanup kind that are entered only under the 'all upstreams finished' gate
     gates = gate_functions(A)
     good_gates = set(n for n, g in gates.items() if g["passing"] <= C["Finished"])
     entered = {}
@@ -1704,6 +1706,245 @@ def rule_skip_decision(A, R, rule):
                 entered.setdefault(to, []).append((t, w))
     delayed = set(s for s, lst in entered.items() if s not in C["Finished"] and s not in C["Ready"] and s not in C["Running"]
                   and A.kind_of(s) in cleanup_kinds and all(write_is_gated(A, t, w, good_gates) for (t, w) in lst))
+    A.__dict__["_delayed"] = delayed
+    return delayed
+
+
+def rule_wake_parked_upstreams(A, R, rule):
+    """When a job that was not waiting behind the 'all upstreams finished' gate is finished without having run (upstream failure, or a
+    skip decided while upstreams are still pending), Ephemeral upstreams parked in a delayed state may be waiting for exactly this
+    decision; nothing else reconsiders them, so the handler must send them a consider signal - on every path, for every delayed state."""
+    from rules_compare import skip_kind
+    C = A.classes()
+    K = kinds(A)
+    H = A.handler_runs()
+    sk = skip_kind(A)
+    delayed = delayed_states(A)
+    gated = set(delayed) | set(C["Ready"]) | set(C["Running"])
+    reach = A.reach()
+    sp = A.signal_processor()
+    # states in which the skip signal is emitted for the job itself without the gate having been passed
+    gates = gate_functions(A)
+    good_gates = set(n for n, g in gates.items() if g["passing"] <= C["Finished"])
+    skip_emit = set()
+    for s in reach:
+        if s in C["Finished"]:
+            continue
+        for v in H[(K["consider"], s)].by_kind("push_signal"):
+            if v["container"] != "queue" and sk in v["kinds"] and is_role(v["key"], "sigtarget"):
+                passed = any(gk[0].startswith("ret:") and gk[0][4:] in good_gates and val is not None and set(val) == {(1,)}
+                             for (gk, val) in v.get("ghosts", ()))
+                if not passed:
+                    skip_emit.add(s)
+    n = 0
+    for hk, label in ((K["upfail"], "upstream-failure"), (sk, "skip")):
+        for s in sorted(reach):
+            if s in gated or s in C["Running"] or not reachable_without_running(A, s):
+                continue
+            if hk == sk and s not in skip_emit:
+                continue
+            run = H[(hk, s)]
+            ws = [w for w in run.by_kind("write_state") if is_role(w["key"], "sigtarget") and s in w["frm"] and (set(w["to"]) & C["Finished"])]
+            if not ws or not iteration_completes(A, run):
+                continue
+            w = ws[0]
+            ems = [v for v in run.by_kind("push_signal") if v["container"] != "queue" and K["consider"] in v["kinds"]
+                   and any(isinstance(r_, tuple) and r_[0] == "nbr" and r_[2] == "Incoming" for r_ in _flat_roles(v["key"][1]))]
+            ok, why = bool(ems), "no consider signal is sent to the upstreams of the job"
+            if ok:
+                okp = False
+                for v in ems:
+                    com = run.common(w, v)
+                    if com is None:
+                        continue
+                    fidc, fnc, bw, bv = com
+                    body = A.facts.body(fnc)
+                    errs = error_exit_blocks(A, body) | residual_blocks(body)
+                    from rules_protocol import key_binding
+                    kb = key_binding(w)
+                    outer = kb[1] if (kb is not None and kb[0] == fidc) else None
+                    r_ = run.taken_reachable(fidc, bw, ({bv} | errs) - {bw})
+                    if bw == bv or not ((outer is not None and outer in r_) or "return" in r_ or (set(returns_of(body)) & r_)):
+                        okp = True
+                if not okp:
+                    ok, why = False, "the handler can end after finishing the job without reconsidering its parked upstreams"
+            n += 1
+            R.ob(rule, "%s handler | %s | the parked upstream Ephemerals of the finished job are reconsidered (every path)" % (label, A.sname(s)),
+                 ok, detail=why + ": an Ephemeral waiting in a delayed state for this job's decision is never looked at again and the "
+                                  "evaluation stalls", site=A.site(w))
+            # ... for every delayed state the upstream can be parked in
+            if ok:
+                for d in sorted(delayed):
+                    r2 = A.run(sp.name, "HW|%s|%s|%s" % (A.kname(hk), A.sname(s), A.sname(d)),
+                               dict(opaque=[x for x in A.signal_entry_names() if x != sp.name], drain_kinds=fin(A.L.signalkind, [hk]),
+                                    cell_init={"sigtarget": fin(A.L.jobstate, [s]), "nbr:Incoming:sigtarget": fin(A.L.jobstate, [d])}))
+                    em2 = [v for v in r2.by_kind("push_signal") if v["container"] != "queue" and K["consider"] in v["kinds"]
+                           and any(isinstance(r_, tuple) and r_[0] == "nbr" and r_[2] == "Incoming" for r_ in _flat_roles(v["key"][1]))]
+                    R.ob(rule, "%s handler | %s | an upstream parked in %s is sent a consider signal" % (label, A.sname(s), A.sname(d)), bool(em2),
+                         detail="the reconsideration passes over an upstream in the delayed state", site=A.site(w))
+    R.floor(rule, "finishing writes of jobs that were not behind the gate", n, 4)
+
+
+def requirement_field(A):
+    """projection of the edge flag that the startup classification declares for the incoming dependencies of every job"""
+    projs = set()
+    for run in A.startup_runs():
+        for w in run.by_kind("write_edge"):
+            roles = run.syms.get(w["b"], (frozenset(), None))[0]
+            if is_role((w["b"], roles), "topo"):
+                projs.add(w["proj"])
+    if len(projs) != 1:
+        raise Imprecision("cannot identify the 'needed' flag of a dependency (%d candidates)" % len(projs))
+    return list(projs)[0]
+
+
+def rule_flag_change_wakes_upstreams(A, R, rule):
+    """The requirement summary of a parked Ephemeral reads the 'needed' flags of its outgoing dependencies.  Whenever the consider logic
+    of a job writes those flags on the job's own incoming dependencies, it must reconsider the direct upstreams on every path:
+    nothing else tells a parked upstream that the answer it is waiting for has changed."""
+    C = A.classes()
+    K = kinds(A)
+    H = A.handler_runs()
+    rf = requirement_field(A)
+    n = 0
+    for s in sorted(A.reach()):
+        if s in C["Finished"] or s in C["Running"] or s in C["Ready"]:
+            continue
+        run = H[(K["consider"], s)]
+        ws = []
+        for w in run.by_kind("write_edge"):
+            if w["proj"] != rf:
+                continue
+            roles = run.syms.get(w["b"], (frozenset(), None))[0]
+            if is_role((w["b"], roles), "sigtarget"):
+                ws.append(w)
+        if not ws:
+            continue
+        ems = [v for v in run.by_kind("push_signal") if v["container"] != "queue" and K["consider"] in v["kinds"]
+               and any(isinstance(r_, tuple) and r_[0] == "nbr" and r_[2] == "Incoming" for r_ in _flat_roles(v["key"][1]))]
+        seen = set()
+        for w in ws:
+            site = (w["fn"], w["bb"], tuple(w.get("stack") or ()))
+            if site in seen:
+                continue
+            seen.add(site)
+            ok, why = bool(ems), "no consider signal is sent to the upstreams"
+            vres = _write_in_validation(A, w, s)
+            if vres is not None:
+                # the write happens inside the validation function: what the handler does next depends on the verdict, and the
+                # verdict is correlated with the write (decided by running the function on from the write)
+                ok, why = vres
+                n += 1
+                R.ob(rule, "consider handler | %s | %s changes the 'needed' flag of the job's incoming dependencies | its direct upstreams are reconsidered"
+                     % (A.sname(s), short(w["fn"])), ok,
+                     detail=why + ": a parked upstream Ephemeral whose requirement summary just changed is never looked at again (stall)", site=A.site(w))
+                continue
+            if ok:
+                okp = False
+                for v in ems:
+                    com = run.common(w, v)
+                    if com is None:
+                        continue
+                    fidc, fnc, bw, bv = com
+                    body = A.facts.body(fnc)
+                    errs = error_exit_blocks(A, body) | residual_blocks(body)
+                    kb = None
+                    for sym, (roles, _c) in run.syms.items():
+                        if isinstance(sym, tuple) and sym[0] == "b" and sym[1] == fidc and "sigtarget" in roles:
+                            kb = sym[2]
+                    r_ = run.taken_reachable(fidc, bw, ({bv} | errs) - {bw})
+                    if bw == bv or not ((kb is not None and kb in r_) or "return" in r_ or (set(returns_of(body)) & r_)):
+                        okp = True
+                if not okp:
+                    ok, why = False, "the handler can end after changing the flags without reconsidering the upstreams"
+            n += 1
+            R.ob(rule, "consider handler | %s | %s changes the 'needed' flag of the job's incoming dependencies | its direct upstreams are reconsidered"
+                 % (A.sname(s), short(w["fn"])), ok,
+                 detail=why + ": a parked upstream Ephemeral whose requirement summary just changed is never looked at again (stall)", site=A.site(w))
+    R.floor(rule, "sites in the consider logic that change the 'needed' flag of incoming dependencies", n, 3)
+
+
+def _write_in_validation(A, w, s):
+    """If the flag write `w` lies inside a function that returns the validation verdict: (ok, reason) of 'for every verdict the function
+    can still return from the write on, the consider logic (verdict forced) reconsiders the direct upstreams on every path'; else None."""
+    from rules_compare import validation_ty, consider_entry_fns, skip_kind
+    from protocol import forced_analysis
+    from domain import adt
+    vt = validation_ty(A)
+    uvb = A.facts.body(w["fn"])
+    if uvb is None or not uvb.locals[0]["s"].startswith("std::result::Result<%s" % vt):
+        return None
+    K = kinds(A)
+    I, fr, out, col = forced_analysis(A, uvb, {}, cfgd=dict(label="R58a"))
+    st = col["ins"].get(w["bb"])
+    if st is None:
+        return (False, "cannot continue the validation function from the write (fail closed)")
+    ex = I.run(fr, st.copy(), start=w["bb"])
+    rv = ex.locals.get((fr.fid, 0)) if ex is not None else None
+    verdicts = None
+    if rv is not None and rv[0] == "adt" and rv[1] == "std::result::Result":
+        vs = adt_variants(rv)
+        verdicts = set(vs[0][0][2]) if (0 in vs and vs[0][0][0] == "fin") else (set() if 0 not in vs else None)
+    if verdicts is None:
+        return (False, "the verdicts returned after the write are unknown (fail closed)")
+    for b_ in sorted(consider_entry_fns(A, skip_kind(A))):
+        cb = A.facts.body(b_)
+        for v in sorted(verdicts):
+            ov = {uvb.name: (lambda vv: (lambda I_, st_, fr_, bi_, t_, a_, sp_: [(adt("std::result::Result", {0: (fin(vt, [vv]),)}), st_)]))(v)}
+            I2, fr2, out2, col2 = forced_analysis(A, cb, ov, cfgd=dict(label="R58b", cell_init={"param": fin(A.L.jobstate, [s])}))
+            calls = [x for k, x in I2.rec.facts.items() if k[0] == "call" and x["callee"] == uvb.name and x["fid"] == fr2.fid]
+            ems = [x for k, x in I2.rec.facts.items() if k[0] == "push_signal" and x["container"] != "queue" and K["consider"] in x["kinds"]
+                   and any(isinstance(r_, tuple) and r_[0] == "nbr" and r_[2] == "Incoming" for r_ in _flat_roles(x["key"][1]))]
+            if not calls:
+                continue
+            if not ems:
+                return (False, "with the verdict %s no consider signal is sent to the upstreams" % A.uni.show(vt, v))
+            errs = error_exit_blocks(A, cb) | residual_blocks(cb)
+            es = I2.edges.get(fr2.fid, set())
+            succ = {}
+            for (a_, b2) in es:
+                succ.setdefault(a_, []).append(b2)
+            idx = dict(((nm[0], tuple(nm[1])), f) for f, nm in I2.frame_names.items())
+
+            def lift(x):
+                ch = list(x.get("stack") or ()) + [(x["fn"], x["bb"])]
+                for i_, (fn_, bb_) in enumerate(ch):
+                    if idx.get((fn_, tuple(ch[:i_]))) == fr2.fid:
+                        return bb_
+                return None
+            blocks = set(b2 for b2 in (lift(x) for x in ems) if b2 is not None)
+            for c in calls:
+                seen_, stk = set(), [c["bb"]]
+                while stk:
+                    x = stk.pop()
+                    if x in seen_ or (x in blocks and x != c["bb"]) or x in errs:
+                        continue
+                    seen_.add(x)
+                    stk.extend(succ.get(x, ()))
+                if "return" in seen_ and c["bb"] not in blocks:
+                    return (False, "with the verdict %s the consider logic can end without reconsidering the upstreams" % A.uni.show(vt, v))
+    return (True, "")
+
+
+def _flat_roles(roles):
+    out = []
+    for r in roles:
+        if isinstance(r, tuple) and r[0] == "via":
+            out.extend(_flat_roles(r[1]))
+        else:
+            out.append(r)
+    return out
+
+
+def rule_skip_decision(A, R, rule):
+    C = A.classes()
+    K = kinds(A)
+    H = A.handler_runs()
+    T = A.transitions()
+    from rules_compare import skip_kind
+    sk = skip_kind(A)
+    cleanup_kinds = set(A.kind_of(s) for s in C["CleanupOffered"])
+    delayed = delayed_states(A)
     R.info["delayed_states"] = A.snames(delayed)
     R.floor(rule, "delayed (gated, undecided) states", len(delayed), 1)
 
